@@ -21,7 +21,7 @@ BOUNDS = {
     "quick": "abc|abt explicit, abc generated, diamonds explicit, conn2/abc generated, closure/ab generated",
     "thorough": "quick + abct, abcdt, abu w3, d3 chains, diamonds generated, conn2/abcd, closure/abc",
 }
-QUICK = ["abc/explicit", "abt/explicit", "abc/generated", "diamond/explicit", "conn2/abc/generated", "closure/ab/generated", "mix3/abtn/explicit", "empty/ab"]
+QUICK = ["abc/explicit", "abt/explicit", "abc/generated", "diamond/explicit", "conn2/abc/generated", "closure/ab/generated", "mix3/abtn/explicit", "empty/ab", "notraw/at+explicit", "notraw/mix3+abt+explicit"]
 THOROUGH = QUICK + ["abct/explicit", "abcdt/explicit", "abu/explicit/w3", "d3/abc/explicit", "d3/abt/generated", "diamond/generated",
                     "conn2/abcd/generated", "closure/abc/generated", "abtn/explicit"]
 MAXCOLS = 14
@@ -98,7 +98,8 @@ def check_model(m, acc, fam, k):
     feas_parts = set(map(tuple, leafpart[feas].tolist()))
     safe = solver_safe_obj(obj)
     acc.hist("solver_safe", safe)
-    if m[0] == 'C' and expected_safe(m) and not safe:
+    # (only over boolean leaves: with integer atoms next to compounds negate() keeps the exact, un-pushed complement - see C05's wording)
+    if m[0] == 'C' and all(bd == (0, 1) for bd in leaves.values()) and expected_safe(m) and not safe:
         acc.violation(None, case, {"what": "constructors did not establish solver-safe form for a formula whose negations should have been pushed inwards",
                                    "model": show(m), "text": obj.to_text().split("\n")})
         return
